@@ -154,12 +154,37 @@ def fromSymbolsAndCdf (B P : Nat) (syms : List Sym) (cdf : List Nat) : M (Option
   | none => .error (.panic "ncdec.from_fast.len_ge_2")
   | some (_, last) => .ok (some { cdf := ext ++ [(wrappingPow2 B P, last)] })
 
-/-- `from_iterable_entropy_model(model)` given `model.symbol_table()` -/
+/-- the validating loop of `from_iterable_entropy_model` (after the D32 repair):
+    `total1 = wrapping_pow2(P) - 1` (wrapping); state `(expected_left_sided_cumulative, complete)` -/
+def fromTableCheck (B total1 : Nat) : List (Sym × Nat × Nat) → Nat → Bool → List (Nat × Sym) →
+    M (Bool × List (Nat × Sym))
+  | [], _, complete, cdf => .ok (complete, cdf)
+  | (s, left, p) :: rest, expected, complete, cdf =>
+    -- `assert!(!complete && left_sided_cumulative == expected_left_sided_cumulative)`
+    if complete = true ∨ left ≠ expected then
+      .error (.panic "ncdec.from_iterable.invalid_symbol_table.start")
+    else
+      -- `probability.get() - Probability::one()` (`probability` is a `NonZero`)
+      match csub "ncdec.from_iterable.probability_minus_one" p 1 with
+      | .error f => .error f
+      | .ok pm1 =>
+        let rem := wsub B total1 left
+        -- `assert!(probability_minus_one <= remaining_minus_one)`
+        if ¬ (pm1 ≤ rem) then .error (.panic "ncdec.from_iterable.invalid_symbol_table.end")
+        else fromTableCheck B total1 rest (wadd B left p) (pm1 == rem) (cdf ++ [(left, s)])
+
+/-- `from_iterable_entropy_model(model)` given `model.symbol_table()`: a table that does not
+    start at zero, is not contiguous or does not end at `1 << PRECISION` is a clean panic -/
 def fromTable (B P : Nat) (tbl : List (Sym × Nat × Nat)) : M (NcDec Sym) :=
-  let cdf := tbl.map (fun (s, left, _) => (left, s))
-  match cdf.getLast? with
-  | none => .error (.panic "ncdec.from_iterable.symbol_table_is_not_empty")
-  | some (_, last) => .ok { cdf := cdf ++ [(wrappingPow2 B P, last)] }
+  match fromTableCheck B (wsub B (wrappingPow2 B P) 1) tbl 0 false [] with
+  | .error f => .error f
+  | .ok (complete, cdf) =>
+    -- `assert!(complete)`
+    if complete = false then .error (.panic "ncdec.from_iterable.invalid_symbol_table.incomplete")
+    else
+      match cdf.getLast? with
+      | none => .error (.panic "ncdec.from_iterable.symbol_table_is_not_empty")
+      | some (_, last) => .ok { cdf := cdf ++ [(wrappingPow2 B P, last)] }
 
 def supportSize (m : NcDec Sym) : M Nat := csub "ncdec.support_size" m.cdf.length 1
 
